@@ -13,7 +13,7 @@ from .gen import scripts as S
 
 BOUNDS = {
     #            blind  guided  gen/shard  mutants  layouts  depth
-    "quick": dict(blind=3, guided=5, gen=150, mutants=6, layouts=2, depth=3, genshards=16),
+    "quick": dict(blind=3, guided=6, gen=150, mutants=6, layouts=2, depth=3, genshards=16),
     "thorough": dict(blind=4, guided=7, gen=2500, mutants=10, layouts=3, depth=6, genshards=16),
 }
 
